@@ -132,11 +132,13 @@ end C10
 section C13
 open Corerad.Model.Addresser
 
-/-- `isAddr family hasAttrs fam val plen flags valid` -/
+/-- `isAddr family hasAttrs fam val plen flags valid hasLocal fam val` -/
 def pAddrMsg : P AddrMsg := do
   let a ← P.bool; let f ← P.nat; let h ← P.bool; let ip ← P.ip
   let pl ← P.nat; let fl ← P.nat; let v ← P.nat
-  pure { isAddr := a, family := f, hasAttrs := h, ip := ip, plen := pl, flags := fl, valid := v }
+  let hl ← P.bool; let l ← P.ip
+  pure { isAddr := a, family := f, hasAttrs := h, ip := ip, plen := pl, flags := fl, valid := v,
+         loc := if hl then some l else none }
 
 def sysIPToks (a : SysIP) : String :=
   s!" {prefixToks a.addr} {boolTok a.deprecated} {boolTok a.manageTemp} {boolTok a.stablePrivacy} {boolTok a.temporary} {boolTok a.tentative} {boolTok a.validForever}"
@@ -170,10 +172,14 @@ def ab (c impl : List String) : Option Verdict := do
   let some (req, r) := P.run (do let q ← P.bool; let r ← pRes pSysIP; pure (q, r)) impl
     | pure { model := "1 " ++ resToksWith sysIPToks m, oracle := false, nontrivial := nt,
              note := "AddressesByIndex returned neither (list, nil), (nil, err of the request) nor panicked" }
-  let ok := req && Spec.C13Addresser.holdsAddrs msgs failed r
+  let ok := req && Spec.C13Addresser.holdsAddrsDoc msgs failed r
   pure { model := "1 " ++ resToksWith sysIPToks m, oracle := ok, nontrivial := nt,
          note := if ok then "" else
            if !req then "AddressesByIndex did not send the documented RTM_GETADDR dump request"
+           else if Spec.C13Addresser.mappedAddrClass msgs failed r then
+             "class=v4mapped-address-panics the dump contains an IPv4-mapped IPv6 address (the kernel accepts `ip -6 addr add ::ffff:192.0.2.9/128 dev eth0`) and AddressesByIndex panicked on it instead of leaving it to the plug-ins, which exclude IPv4"
+           else if Spec.C13Addresser.peerClass msgs failed r then
+             "class=peer-address-as-own the dump contains an address with a peer (IFA_LOCAL = the interface's own address, IFA_ADDRESS = the peer's) and AddressesByIndex reported the peer's address as the interface's"
            else "AddressesByIndex: one system.IP per address message in dump order, each boolean its IFA_F_* bit (Temporary 0x1, Deprecated 0x20, Tentative 0x40, ManageTemporaryAddresses 0x100, StablePrivacy 0x800), ValidForever iff valid = 2^32-1; (nil, err) for a failing request or an empty dump; panic on a broken invariant" }
 
 /-- `isRoute family fam val dlen oif hasPref pref` -/
@@ -200,7 +206,9 @@ def rb (c impl : List String) : Option Verdict := do
   let ok := req && Spec.C13Addresser.holdsRoutesDoc msgs failed r
   pure { model := "1 " ++ resToksWith routeToks m, oracle := ok, nontrivial := nt,
          note := if ok then "" else
-           if Spec.C13Addresser.defaultRouteClass msgs failed r then
+           if Spec.C13Addresser.mappedRouteClass msgs failed r then
+             "class=v4mapped-route-panics the dump contains an IPv4-mapped route (e.g. `unreachable ::ffff:0.0.0.0/96 dev lo`) and routesByIndex panicked on it instead of leaving it out or to the plug-in, which excludes IPv4"
+           else if Spec.C13Addresser.defaultRouteClass msgs failed r then
              "class=default-route-without-dst the dump contains a default route (destination length 0, no RTA_DST attribute, as the kernel sends it) and routesByIndex panicked on it instead of returning ::/0"
            else if !req then "routesByIndex did not send the documented RTM_GETROUTE dump request"
            else "routesByIndex: one system.Route per route message in dump order with Prefix = (Dst, DstLength), the out-interface index and the preference (Medium when absent), Dst = :: for a default route sent without RTA_DST; (nil, err) for a failing request or an empty dump; panic on a broken invariant" }
